@@ -1,13 +1,15 @@
 """C13 no client input crashes the server or goes unanswered.
 
 Two halves (the evidence states the split):
-  * PROOF: coq/Props/PropC13.v over coq/Sys/PanicSites.v (reachability of the MODELLED panic sites,
-    reply totality, id echo, error-not-silence at the session/hub routing level), tied to the code by
-    running the extracted model on the same structured messages as the implementation.
+  * PROOF: coq/Props/PropC13.v over coq/Sys/PanicSites.v (reachability of the MODELLED panic sites incl. the
+    in-topic default-access site, reply totality, id echo, error-not-silence at the session/hub routing level),
+    tied to the code by running the extracted model on the same structured messages as the implementation;
+    and over coq/Pure/Drafty.v (message content rendered into previews never panics), tied to the code by
+    tools/props/c13drafty.py (extracted model and drafty.PlainText / Preview on the same documents).
   * TESTING IN SUPPORT: the malformed-stream driver TestVerifFuzz (harness/overlay/server/
     zz_verif_c13_test.go) feeding raw bytes / boundary-valued messages / mixed sequences to the real
-    dispatchRaw in every session state under a matrix of configurations, and the drafty ext fuzz
-    driver.  Nothing is proved about unmodelled Go code; a panic found here is a monitor failure."""
+    dispatchRaw in every session state under a matrix of configurations.  Nothing is proved about Go
+    code outside the two models; a panic found here is a monitor failure."""
 import itertools
 import json
 import os
@@ -82,6 +84,38 @@ def gen_group(rng, n, profile):
             m = G.gen_msg(rng, G.pick(rng, G.KINDS))
             items.append(Item("in", sess, G.dumps(m), shape_of(m), msg=m, gen="structured"))
     return items
+
+
+def lifecycle_groups():
+    """Structured multi-step sequences on ONE topic (each its own group, so that the population is fresh):
+    attach, change own mode (self-ban, junk, owner bit), detach, come back, unsubscribe, come back - for every
+    topic kind and session kind.  Random single messages almost never line up three dependent requests on the
+    same topic, yet several handler branches (un-self-ban, re-subscription of a deleted row, default access
+    of each topic category) are reachable only that way."""
+    def I(sess, m):
+        return Item("in", sess, G.dumps(m), shape_of(m), msg=m, gen="lifecycle")
+    gs = []
+    n = 0
+    for topic in ("me", "fnd", "sys", "@GG@", "@GC@", "@CC@", "@PP@", "@U2@", "new", "nch"):
+        for sess in ("att", "in", "root"):
+            for mode in ("N", "JP", "JRWPASDO", "J?"):
+                n += 1
+                i = "lc%d" % n
+                gs.append([
+                    I(sess, {"sub": {"id": i + "a", "topic": topic}}),
+                    # invite / re-invite another user with the topic's default mode (anotherUserSub -> accessFor) and with a bad id
+                    I(sess, {"set": {"id": i + "j", "topic": topic, "sub": {"user": "@U2@" if sess != "peer" else "@U1@"}}}),
+                    I(sess, {"set": {"id": i + "k", "topic": topic, "sub": {"user": "usrJunk", "mode": mode}}}),
+                    I(sess, {"set": {"id": i + "b", "topic": topic, "sub": {"mode": mode}}}),
+                    I(sess, {"sub": {"id": i + "c", "topic": topic}}),
+                    I(sess, {"leave": {"id": i + "d", "topic": topic}}),
+                    I(sess, {"sub": {"id": i + "e", "topic": topic, "set": {"sub": {"mode": mode}}}}),
+                    I(sess, {"get": {"id": i + "f", "topic": topic, "what": "desc sub"}}),
+                    I(sess, {"leave": {"id": i + "g", "topic": topic, "unsub": True}}),
+                    I(sess, {"sub": {"id": i + "h", "topic": topic}}),
+                    I(sess, {"pub": {"id": i + "i", "topic": topic, "content": "x"}}),
+                ])
+    return gs
 
 
 def canonical_groups():
@@ -200,8 +234,15 @@ def run_driver(ctx, cfg, groups, tag):
     began = 0
     done = False
     probes = []
+    pres = {}
     for l in out:
-        if l.startswith("begin "):
+        if l.startswith("pre "):
+            # state facts of an input, written before it is handled: survive a crash of the process
+            m = re.match(r"^pre (\d+) (\S+) dec=(\S+) id=(\S+) topic=(\S+) st=(\S+)$", l)
+            if m:
+                pres[int(m.group(1)) - 1] = dict(sess=m.group(2), dec=m.group(3), id=unhx(m.group(4)), topic=unhx(m.group(5)), st=m.group(6),
+                                                 res="CRASH", term=False, frames=[], others=0)
+        elif l.startswith("begin "):
             began = int(l.split()[1])
         elif l.startswith("r "):
             w = l.split()
@@ -233,7 +274,7 @@ def run_driver(ctx, cfg, groups, tag):
             fatal = dict(index=k, log=log[-6000:], msg=results[k]["res"], site="hang", hang=True)
         elif 0 <= k < len(flat) and results[k] is None:
             msg, site = site_from_log(log)
-            fatal = dict(index=k, log=log[-6000:], msg=msg, site=site, hang=False)
+            fatal = dict(index=k, log=log[-6000:], msg=msg, site=site, hang=False, pre=pres.get(k))
         else:
             msg, site = site_from_log(log)
             fatal = dict(index=min(max(k + 1, 0), len(flat) - 1) if flat else -1, log=log[-6000:], msg="driver failed outside an input (rc=%s): %s" % (rc, msg), site="driver", hang=False, driver=True)
@@ -297,6 +338,11 @@ def monitor(cfg, group, items, results):
         if exp is not None:
             if not any(f[0] == "c" and f[1] >= 400 for f in r["frames"]):
                 yield ("error-not-silence", k, "%s request answered without an error code: %s" % (exp, r["frames"]))
+        if single and kind != "note" and r["id"] != "" and replies and all(unsolicited(f) for f in replies):
+            # the only thing the requester was sent is an id-less eviction notice (e.g. {del what=user} of the own
+            # account when the write loop takes the stop payload before the queued {ctrl 200}): the handler's
+            # answer does not echo the request id
+            yield ("id-echo-" + kind, k, "request answered only by an eviction notice that does not carry the request id %r: %s" % (r["id"], replies))
         if single and kind != "note" and r["id"] != "":
             for f in replies:
                 if f[2] != r["id"] and not unsolicited(f):
@@ -330,7 +376,7 @@ def fuzz(ctx, stats):
             rp = json.load(open(ctx.replay))["replay"]
             groups = [[Item(i["op"], i["session"], bytes.fromhex(i["hex"]), ("replay",), gen="replay") for i in rp["inputs"]]]
         else:
-            groups = canonical_groups()
+            groups = canonical_groups() + (lifecycle_groups() if ci == 0 or not quick else [])
             for gi in range(n_groups):
                 groups.append(gen_group(rng, glen, ["mixed", "mixed", "structured", "raw"][gi % 4] if gi % 8 != 7 else "raw"))
         crashed_shapes = {}
@@ -382,6 +428,8 @@ def fuzz(ctx, stats):
                           % (fatal["msg"], cfg_name(cfg), bad.sess, bad.show()["bytes"][:300]),
                           dict(replay_of(cfg, small, law, fatal["msg"]), trace=fatal["log"][-2500:]))
             stats["crashes"].append({"cfg": cfg_name(cfg), "law": law, "input": bad.show()["bytes"][:300]})
+            if bad.msg is not None and fatal.get("pre"):
+                stats.setdefault("model_cases", []).append((cfg, bad, fatal["pre"]))
             crashed_shapes[bad.shape] = crashed_shapes.get(bad.shape, 0) + 1
             restarts += 1
             if restarts >= max_restarts or ctx.replay:
@@ -450,72 +498,6 @@ def account(stats, cfg, it, r):
         stats["nontrivial"].add(it.raw)
 
 
-# ---------------- drafty ext fuzz ----------------
-
-def drafty_cases(ctx):
-    rng = ctx.rng
-    cases = []
-    for d in G.DRAFTY + G.ANY:
-        cases.append(d)
-    texts = ["", "a", "hello world", "a\U0001F600b́c", "́́", "\U0001F468‍\U0001F469‍\U0001F467", "x" * 300, "\u0000", "\ud83d"]
-    offs = [0, 1, 2, -1, -100, 5, 299, 300, 301, 2 ** 31 - 1, 2 ** 31, 2 ** 63 - 1, -2 ** 63, 1.5, "1", None]
-    tps = ["ST", "EM", "DL", "CO", "BR", "LN", "MN", "HT", "HD", "IM", "EX", "FM", "RW", "BN", "VC", "VD", "QQ", "", "junk", 5, None]
-    for _ in range(600 if ctx.tier == "quick" else 20000):
-        txt = G.pick(rng, texts)
-        fmt = []
-        for _ in range(rng.randrange(0, 5)):
-            f = {}
-            if rng.random() < 0.9:
-                f["at"] = G.pick(rng, offs)
-            if rng.random() < 0.9:
-                f["len"] = G.pick(rng, offs)
-            if rng.random() < 0.6:
-                f["tp"] = G.pick(rng, tps)
-            if rng.random() < 0.5:
-                f["key"] = G.pick(rng, offs)
-            fmt.append(f if rng.random() < 0.95 else G.pick(rng, [5, "x", None, []]))
-        ent = []
-        for _ in range(rng.randrange(0, 4)):
-            e = {"tp": G.pick(rng, tps)}
-            if rng.random() < 0.7:
-                e["data"] = G.pick(rng, [{}, {"mime": "image/png", "val": "AAAA", "name": "x", "width": -1, "height": "x"}, {"val": 5}, 5, None, {"url": "http://x", "ref": 5},
-                                          {"state": "started", "incoming": "x", "duration": -5}, {"name": 5, "act": "url", "val": None}])
-            ent.append(e if rng.random() < 0.95 else G.pick(rng, [5, "x", None]))
-        d = {"txt": txt, "fmt": fmt, "ent": ent}
-        if rng.random() < 0.1:
-            d["txt"] = G.pick(rng, [5, None, [], {}])
-        cases.append(d)
-    out = []
-    for d in cases:
-        raw = json.dumps(d, ensure_ascii=False).encode("utf-8", "surrogatepass")
-        for ln in (0, 1, 7, 80, -1, 2 ** 31):
-            out.append("D %d %s" % (ln, raw.hex() or "-"))
-    return out
-
-
-def drafty(ctx, stats):
-    ok, out = ctx.build_ext()
-    if not ok:
-        ctx.violation("corr", "harness-build-broken", "ext driver no longer builds: " + out[-1500:], {"correspondence": "build of harness/ext"})
-        return
-    cases = drafty_cases(ctx)
-    rc, res, err = ctx.run_ext("c13", cases)
-    if rc != 0 or len(res) != len(cases):
-        ctx.violation("corr", "driver-crashed", "drafty ext driver failed rc=%s %s" % (rc, err[-1500:]), {"correspondence": "ext driver"})
-        return
-    n_p = 0
-    outcomes = {}
-    for c, r in zip(cases, res):
-        key = r.split()[0] if r else "?"
-        outcomes[key] = outcomes.get(key, 0) + 1
-        if r.startswith("PANIC"):
-            n_p += 1
-            raw = bytes.fromhex(c.split()[2]) if c.split()[2] != "-" else b""
-            ctx.violation("monitor", "drafty-panic", "drafty.PlainText/Preview panics on a client-controlled document (content is rendered into push previews in the topic goroutine): %s on %s"
-                          % (r[:200], raw.decode("utf-8", "replace")[:300]), {"case": c, "impl": r, "document": raw.decode("utf-8", "replace")})
-    stats["drafty"] = {"evaluations": len(cases), "panics": n_p, "outcomes": outcomes}
-
-
 # ---------------- model correspondence (proof half) ----------------
 
 def run(ctx):
@@ -533,7 +515,8 @@ def run(ctx):
     fuzz(ctx, stats)
     t_fuzz = time.time() - t0
     if not ctx.replay:
-        drafty(ctx, stats)
+        from props import c13drafty
+        c13drafty.run(ctx, stats, have_model=have_coq)
     if have_coq and not ctx.replay:
         from props import c13model
         c13model.correspondence(ctx, stats)
@@ -543,7 +526,8 @@ def run(ctx):
     ctx.coverage.update({
         "split": {
             "proof_half": "obligations/discharged below count the theorems of coq/Props/PropC13.v (modelled panic sites, reply totality, id echo, error-not-silence at session/hub routing level); model tied to the code by the extracted-model correspondence run (model_correspondence)",
-            "testing_half": "evaluations/input_distribution below are the malformed-stream fuzz (TestVerifFuzz) and the drafty ext fuzz: TESTING IN SUPPORT, no proof about unmodelled Go code",
+            "proof_half_drafty": "theorems c13_drafty_* over coq/Pure/Drafty.v (toTree / forEach / PlainText / Preview never panic, for every decoded document); tied to the code by running the extracted model and drafty.PlainText / drafty.Preview on the same generated documents (drafty_fuzz: outcome class, plain text, preview compared; law drafty-panic on the implementation's answers)",
+            "testing_half": "evaluations/input_distribution below are the malformed-stream fuzz (TestVerifFuzz): TESTING IN SUPPORT, no proof about Go code outside the two models",
         },
         "evaluations": stats["evaluations"] + stats.get("drafty", {}).get("evaluations", 0),
         "distinct_nontrivial": len(stats["nontrivial"]),
@@ -560,13 +544,14 @@ def run(ctx):
             "c13_id_echo_statement: REFUTED (extra.obo rejected before the id is read; known finding id-echo-obo); c13_id_echo_partial proved",
             "exactness of the trigger predicate (trigger -> panic) is shown by one witness per site, not for all inputs",
             "error code >= 400 for ill-formed / non-existent topic names is not stated: the implementation answers 3xx in some paths (reply, not silence)",
-            "panic-freedom of unmodelled Go code: not provable here, fuzz only",
+            "c13_drafty_unrepaired_statement (range check before /repo 6cc931e) and c13_default_access_unrepaired_statement (getDefaultAccess before /repo f52b053): REFUTED by vm_compute witnesses; both repairs are in /repo, the full theorems hold for the code as it is",
+            "panic-freedom of Go code outside the two models (JSON decoding, in-topic handlers below the modelled sites, store mappers, auth handlers, push adapters): not provable here, fuzz only",
         ],
         "trusted_base": [
             "harness/overlay/server/zz_verif_c13_test.go (population, recover wrapper = stand-in for the recover-less read loops, quiescence detector of zz_verif_topic_test.go, stub media handler / validator), memverif adapter",
             "tools/props/c13.py monitors (python restatement of the property on the implementation's answers), c13gen.py generators",
-            "harness/ext/c13.go (drafty.PlainText / Preview under recover)",
-            "NOT proved: panic-freedom of unmodelled Go code (encoding/json, drafty, topic handlers below the modelled sites, store mappers, auth handlers): covered only by the fuzz runs above",
+            "harness/ext/c13.go (drafty.PlainText / Preview each under recover; its re-implementation of decodeAsDrafty / decodeAsStyle / decodeAsEntity and the uniseg segmentation hand the model the decoded document), harness/runner/r_c13d.ml, tools/props/c13drafty.py (comparison, TrimSpace applied to the model's text)",
+            "NOT proved: panic-freedom of Go code outside the two models (encoding/json, drafty's decoder and copyLight, topic handlers below the modelled sites, store mappers, auth handlers): covered only by the fuzz runs above",
         ],
     })
     ctx.finish()
